@@ -76,11 +76,13 @@ pub struct ServerConfig {
     /// if non-empty: the k-th picture chunk served is at most `chunk_pattern[k % len]` bytes (a
     /// server may return less than the limit)
     pub chunk_pattern: Vec<usize>,
+    /// per-URI picture sources (uri, embedded, cover) that take precedence over the global ones
+    pub per_uri: Vec<(String, PicSource, PicSource)>,
 }
 
 impl Default for ServerConfig {
     fn default() -> Self {
-        ServerConfig { password: None, password_ack_code: 3, embedded: PicSource::Empty, cover: PicSource::Empty, binary_limit: 8192, chunk_pattern: vec![] }
+        ServerConfig { password: None, password_ack_code: 3, embedded: PicSource::Empty, cover: PicSource::Empty, binary_limit: 8192, chunk_pattern: vec![], per_uri: vec![] }
     }
 }
 
@@ -334,7 +336,12 @@ impl SimServer {
                 }
             }
             "readpicture" | "albumart" => {
-                let src = if name == "readpicture" { self.cfg.embedded.clone() } else { self.cfg.cover.clone() };
+                let uri = req.args.first().map(|a| String::from_utf8_lossy(a).into_owned()).unwrap_or_default();
+                let (emb, cov) = match self.cfg.per_uri.iter().find(|(u, _, _)| *u == uri) {
+                    Some((_, e, c)) => (e.clone(), c.clone()),
+                    None => (self.cfg.embedded.clone(), self.cfg.cover.clone()),
+                };
+                let src = if name == "readpicture" { emb } else { cov };
                 let offset = req.args.get(1).and_then(|a| std::str::from_utf8(a).ok()).and_then(|s| s.parse::<usize>().ok());
                 match src {
                     PicSource::Empty => true,
@@ -373,6 +380,14 @@ impl SimServer {
                         true
                     }
                 }
+            }
+            n if n.starts_with("partialfail") => {
+                // a command that prints part of its output before it fails
+                out.extend_from_slice(b"partial: ");
+                out.extend_from_slice(line);
+                out.push(b'\n');
+                ack(out, 50, index, &name, &format!("No such thing: {}", String::from_utf8_lossy(line)));
+                false
             }
             n if n.starts_with("fail") => {
                 ack(out, 50, index, &name, &format!("No such thing: {}", String::from_utf8_lossy(line)));
